@@ -29,11 +29,15 @@ type Request struct {
 	RefBudget uint64   `json:"ref_budget,omitempty"`
 	Budgets   []uint64 `json:"budgets,omitempty"`  // explicit budgets (replay / minimisation); empty: enumerate
 	EnumMax   int      `json:"enum_max,omitempty"` // enumerate every budget up to this N, sample above
+	Carries   []uint64 `json:"carries,omitempty"`  // with Budgets: replay the reused-Stats sub-check for these (budget, carry) pairs
 
 	// C11
 	FaultSets [][]kernel.Fault `json:"fault_sets,omitempty"` // explicit fault sets; empty: enumerate singles and sample multis
 	MultiSets int              `json:"multi_sets,omitempty"`
 	SingleMax int              `json:"single_max,omitempty"` // enumerate all single placements when the history has at most this many events
+
+	// C05
+	PoolRuns int `json:"pool_runs,omitempty"` // real runs per case, each with its own pool decisions
 
 	// C18
 	Clients [][]Call          `json:"clients,omitempty"`
@@ -48,7 +52,10 @@ type Violation struct {
 	Detail map[string]any    `json:"detail,omitempty"`
 	// Narrow is what the parent puts into the request to reproduce only this violation.
 	Budgets   []uint64         `json:"budgets,omitempty"`
+	Carries   []uint64         `json:"carries,omitempty"`
 	FaultSets [][]kernel.Fault `json:"fault_sets,omitempty"`
+	PoolRun   int              `json:"pool_run,omitempty"`
+	Choices   []int            `json:"choices,omitempty"` // the simulator decisions of the violating run
 }
 
 // Response is the answer to a Request.
@@ -62,6 +69,7 @@ type Response struct {
 	Results    []*CallResult  `json:"results,omitempty"`
 	Sample     any            `json:"sample,omitempty"`
 	Hashes     []string       `json:"hashes,omitempty"` // per-run history hashes (determinism self-test)
+	Notes      []string       `json:"notes,omitempty"`
 }
 
 func (r *Response) stat(k string, n int) {
